@@ -107,6 +107,9 @@ type Inc struct {
 	b         *Broker
 	srvRaw    transport.ReadWriter
 	cliRaw    transport.ReadWriter
+	usrvRaw   transport.ReadWriter // optional second pipe: the unreliable (datagram-like) path
+	ucliRaw   transport.ReadWriter
+	usrv      *encoding.Transport
 	srv       *encoding.Transport
 	out       chan outMsg
 	closed    chan struct{}
@@ -124,7 +127,7 @@ type BUp struct {
 	QoS     message.QoS
 	recv    map[uint32]map[int]bool // seq -> incarnations on which it was received
 	acked   map[uint32]map[int]bool // seq -> incarnations on which a result for it was sent
-	aliases map[string]uint32 // data id name -> alias granted
+	aliases map[string]uint32       // data id name -> alias granted
 	closed  bool
 }
 
@@ -170,7 +173,10 @@ type Broker struct {
 	upInfos  map[string]*message.UpstreamInfo
 	nextRid  uint32
 	aliasOff uint32
+	// Unreliable: the dialer also offers an unreliable transport (second in-memory pipe)
+	Unreliable bool
 	pointHolds []*pointHold
+	noRead     bool
 }
 
 func NewBroker(rec *Rec) *Broker {
@@ -366,8 +372,21 @@ func (t *cliTr) CloseWithStatus(transport.CloseStatus) error { return t.Close() 
 func (t *cliTr) RxBytesCounterValue() uint64                 { return t.inc.cliRaw.RxBytesCounterValue() }
 func (t *cliTr) TxBytesCounterValue() uint64                 { return t.inc.cliRaw.TxBytesCounterValue() }
 func (t *cliTr) AsUnreliable() (transport.UnreliableTransport, bool) {
-	return nil, false
+	if t.inc.ucliRaw == nil {
+		return nil, false
+	}
+	return &ucliTr{inc: t.inc}, true
 }
+
+// ucliTr is the client end of the unreliable pipe.
+type ucliTr struct{ inc *Inc }
+
+func (t *ucliTr) Read() ([]byte, error)                         { return t.inc.ucliRaw.Read() }
+func (t *ucliTr) Write(bs []byte) error                         { return t.inc.ucliRaw.Write(bs) }
+func (t *ucliTr) Close() error                                  { return t.inc.ucliRaw.Close() }
+func (t *ucliTr) RxBytesCounterValue() uint64                   { return t.inc.ucliRaw.RxBytesCounterValue() }
+func (t *ucliTr) TxBytesCounterValue() uint64                   { return t.inc.ucliRaw.TxBytesCounterValue() }
+func (t *ucliTr) IsUnreliable()                                 {}
 func (t *cliTr) NegotiationParams() transport.NegotiationParams { return t.np }
 func (t *cliTr) Name() transport.Name                           { return transport.Name("verifmem") }
 
@@ -402,6 +421,10 @@ func (b *Broker) Dial(dc transport.DialConfig) (transport.Transport, error) {
 		upAlias:   map[uint32]*BUp{},
 		downAlias: map[uint32]*BDown{},
 	}
+	if b.Unreliable {
+		inc.usrvRaw, inc.ucliRaw = transport.Pipe()
+		inc.usrv = encoding.NewTransport(&encoding.TransportConfig{Transport: inc.usrvRaw, Encoding: b.enc})
+	}
 	b.mu.Lock()
 	b.incs = append(b.incs, inc)
 	inc.c = len(b.incs)
@@ -410,6 +433,9 @@ func (b *Broker) Dial(dc transport.DialConfig) (transport.Transport, error) {
 	b.rec.Log("BAccept", "c", inc.c, "n", n)
 	go inc.readLoop()
 	go inc.writeLoop()
+	if inc.usrv != nil {
+		go inc.ureadLoop()
+	}
 	return &cliTr{inc: inc, np: dc.NegotiationParams()}, nil
 }
 
@@ -460,6 +486,9 @@ func (i *Inc) cut(cause string) {
 		i.b.rec.Log("BLinkDown", "c", i.c, "cause", cause)
 		close(i.closed)
 		i.srvRaw.Close()
+		if i.usrvRaw != nil {
+			i.usrvRaw.Close()
+		}
 	})
 }
 
@@ -508,8 +537,30 @@ func (i *Inc) sendSync(m message.Message, ev string, kv ...any) error {
 	}
 }
 
+// ureadLoop reads the unreliable path (chunks of unreliable upstreams).
+func (i *Inc) ureadLoop() {
+	for {
+		m, err := i.usrv.Read()
+		if err != nil {
+			return
+		}
+		i.b.rec.Log("BUnreliable", "c", i.c, "kind", KindOf(m))
+		i.handle(m)
+	}
+}
+
 func (i *Inc) readLoop() {
 	for {
+		// stopReading: the peer is alive but does not read any more (every client write blocks)
+		for {
+			i.b.mu.Lock()
+			nr := i.b.noRead
+			i.b.mu.Unlock()
+			if !nr || !i.alive() {
+				break
+			}
+			time.Sleep(5 * time.Millisecond)
+		}
 		m, err := i.srv.Read()
 		if err != nil {
 			cause := "clientClosed"
